@@ -505,6 +505,9 @@ const TS10: [u32; 10] = [0, 1, 2, 0xFF_FFFE, 0xFF_FFFF, 0x100_0000, 0x1FF_FFFE, 
 fn slices(mode: Mode, thorough: bool) -> Vec<Slice> {
     let both = vec![false, true];
     let mut v = Vec::new();
+    // C07 is cheap (no receiver cut sweep): its quick tier runs the full slice set, its thorough tier more
+    let c07_extra = thorough && mode == Mode::C07;
+    let thorough = thorough || mode == Mode::C07;
     if !thorough {
         v.push(Slice {
             name: "one-chunk-stream/two-types/timestamps-around-2^24-and-2^32/chunk-size-2",
@@ -564,7 +567,28 @@ fn slices(mode: Mode, thorough: bool) -> Vec<Slice> {
             forces: both.clone(), drops: both.clone(), setchunks: vec![], init_chunk: None,
         });
     }
-    let _ = mode;
+    if c07_extra {
+        v.push(Slice {
+            name: "five-chunk-streams/one-type-each/chunk-size-2",
+            types: vec![4, 18, 9, 8, 20], msids: vec![1], tss: vec![0, 1, 0xFF_FFFF], lens: vec![0, 3],
+            forces: both.clone(), drops: both.clone(), setchunks: vec![], init_chunk: Some(2),
+        });
+        v.push(Slice {
+            name: "one-chunk-stream/six-protocol-control-types/chunk-size-3",
+            types: vec![1, 2, 3, 4, 5, 6], msids: vec![0, 1], tss: vec![0, 1, 2], lens: vec![4, 5],
+            forces: both.clone(), drops: vec![false], setchunks: vec![], init_chunk: Some(3),
+        });
+        v.push(Slice {
+            name: "one-chunk-stream/all-ten-timestamps/three-message-streams/chunk-size-1",
+            types: vec![22, 15], msids: vec![0, 0x0102_0304, 0xFFFF_FFFF], tss: TS10.to_vec(), lens: vec![0, 1, 2],
+            forces: both.clone(), drops: both.clone(), setchunks: vec![], init_chunk: Some(1),
+        });
+        v.push(Slice {
+            name: "chunk-size-changes/video-and-data/extremes",
+            types: vec![9, 18], msids: vec![1], tss: vec![0, 0xFF_FFFF, 0x100_0000], lens: vec![0, 1, 255, 256, 257, 65_537],
+            forces: both.clone(), drops: vec![false], setchunks: vec![1, 255, 256, 65_536, 0xFF_FFFF, 0x100_0000, 0x7FFF_FFFF], init_chunk: None,
+        });
+    }
     v
 }
 
